@@ -127,7 +127,13 @@ pub struct Explored {
 /// `run(prefix)` must replay `prefix` and then take choice 0 everywhere, returning the trace.
 /// Every complete choice sequence (leaf) is visited exactly once, in depth-first order, identity
 /// first. `cap` bounds the number of leaves; when hit, `capped` is set (not exhaustive).
-pub fn explore(
+pub fn explore(cap: u64, run: impl FnMut(&[u32]) -> Vec<(u32, u32)>) -> Explored {
+    explore_bounded(u32::MAX, cap, run)
+}
+
+/// As `explore`, but only choice sequences with at most `bound` deviations (non-zero choices).
+pub fn explore_bounded(
+    bound: u32,
     cap: u64,
     mut run: impl FnMut(&[u32]) -> Vec<(u32, u32)>,
 ) -> Explored {
@@ -159,6 +165,10 @@ pub fn explore(
         }
         // children: deviate at one later point; pushed in reverse so DFS visits low alts first
         let mut kids = vec![];
+        let used = prefix.iter().filter(|c| **c != 0).count() as u32;
+        if used >= bound {
+            continue;
+        }
         for i in prefix.len()..trace.len() {
             for alt in 1..trace[i].0 {
                 let mut p: Vec<u32> = trace[..i].iter().map(|(_, c)| *c).collect();
